@@ -298,7 +298,7 @@ impl Ctx {
             ("tobytes | fromcbor", DOC_JSON, l(3, 3)),
             ("@base64d", DOC_JSON, l(2, 3)),
         ];
-        let docprogs = docs.into_iter().map(|(p, a, n)| (p.to_string(), a, n, jq::compile_full(&format!("[limit(8; {p})]"), &[]).unwrap())).collect();
+        let docprogs = docs.into_iter().map(|(p, a, n)| (p.to_string(), a, n, jq::compile_full(&format!("[limit(8; {p})] | ., ([.. | scalars | (try floor catch 0), (try sqrt catch 0), (try round catch 0), (try (. + 1) catch 0), (try (. * 2) catch 0), (try (. % 3) catch 0), (try -(.) catch 0), (try tostring catch 0), (try tojson catch 0), (try todate catch 0), (try length catch 0), (try ascii_downcase catch 0), (try (. < 1) catch 0), (try ([., 1] | sort) catch 0), (try {{(.): 1}} catch 0), (try .[0] catch 0), (try tonumber catch 0)] | length)"), &[]).unwrap())).collect();
         let mut pool = pool(quick);
         let mut bigs = vec![false; pool.len()];
         for v in [rv::int(0), rv::int(1), rv::int(-1), rv::int(256), RVal::Arr(vec![rv::int(0), rv::int(97)]), RVal::Obj(vec![(rv::s("a"), rv::int(0))])] {
@@ -763,7 +763,7 @@ pub fn main(tier: Tier) -> ! {
     run.sample(ctx.describe("documents", 4321));
     run.sample(json!({"pool": ctx.pool.iter().map(|v| v.to_string().chars().take(40).collect::<String>()).collect::<Vec<_>>()}));
     run.finish(
-        "natives: every native filter and definition discovered from the tree (in value, path(.) and `|= .` position) x all tuples of input and arguments over a pool of boundary values (exhaustive for arity <= 2, 8 spread values for further positions); filter text: all token strings of length <= 3 (thorough 4) over 71 tokens, lexed, parsed, loaded, compiled, every report rendered plain and coloured, accepted programs run; documents: all token strings per format over structural alphabets through fromjson/fromyaml/fromtoml/fromxml/fromcsv/fromtsv/@base64d and all byte strings of length <= 2 (thorough 3) through fromcbor; cli-io: the same documents through the readers of the command line (file and stdin entry points of every input format incl. raw and raw0, with and without --slurp, stopping at the first reported error like the command line) and every value read through every writer (9 output formats x 3 option sets). Every case runs in a child process under catch_unwind with overflow checks and debug assertions; a panic, abort or signal is a violation, allocation failure and capacity overflow are counted as excluded. distinct non-trivial counts distinct case indices (capped at 200000 entries) ",
+        "natives: every native filter and definition discovered from the tree (in value, path(.) and `|= .` position) x all tuples of input and arguments over a pool of boundary values (exhaustive for arity <= 2, 8 spread values for further positions); filter text: all token strings of length <= 3 (thorough 4) over 71 tokens, lexed, parsed, loaded, compiled, every report rendered plain and coloured, accepted programs run; documents: all token strings per format over structural alphabets through fromjson/fromyaml/fromtoml/fromxml/fromcsv/fromtsv/@base64d and all byte strings of length <= 2 (thorough 3) through fromcbor, every scalar that a decoder yields being fed to 17 consumers (rounding, arithmetic, comparison, sorting, formatting, dates, key construction); cli-io: the same documents through the readers of the command line (file and stdin entry points of every input format incl. raw and raw0, with and without --slurp, stopping at the first reported error like the command line) and every value read through every writer (9 output formats x 3 option sets). Every case runs in a child process under catch_unwind with overflow checks and debug assertions; a panic, abort or signal is a violation, allocation failure and capacity overflow are counted as excluded. distinct non-trivial counts distinct case indices (capped at 200000 entries) ",
         &["arguments that control repetition or generation counts are limited to |n| <= 64 (allocation size is a resource); so is the order of the Bessel functions jn/yn, whose libm implementation takes time linear in the order (seconds for 2^31, not a crash)", "until/2 with constant arguments, halt_error, debug, stderr, input(s) are not swept (listed in filters_skipped)"],
     )
 }
